@@ -37,8 +37,12 @@ def generic(pid, tier, seed, mcs, scripts, vals, assumptions, extra_cov=None, pr
     viol, known = [], []
     lines = 0
     vstates = 0
+    evhist = {}
     for (p, mod, cfg) in vals:
         res = V.validate_shards(mod, cfg, p, shard_dirs, "%s_%s" % (pid, p))
+        for rr in res:
+            for k, n in rr["hist"].items():
+                evhist[p + "." + k] = evhist.get(p + "." + k, 0) + n
         v, k = collect(res, scripts, None)
         viol += v
         known += k
@@ -51,6 +55,7 @@ def generic(pid, tier, seed, mcs, scripts, vals, assumptions, extra_cov=None, pr
         "traces_validated_against_impl": len(scripts),
         "trace_lines_validated": lines,
         "trace_states_checked": vstates,
+        "trace_event_counts": evhist,
         "samples": [scripts[i] for i in range(0, len(scripts), max(1, len(scripts) // 3))][:3],
         "model_checking": mc_res,
         "mc_actions_never_taken": never,
@@ -99,7 +104,25 @@ def check_C08(tier, seed):
     return res
 
 
+def check_C01(tier, seed):
+    r = random.Random(seed * 7919 + 1)
+    quick = tier == "quick"
+    vecs, gst = V.gen("SeqGen.tla", "SeqGen_fates6.cfg" if quick else "SeqGen_fates8.cfg", "C01")
+    n_vec = 900 if quick else 30000
+    n_rand = 700 if quick else 30000
+    chosen = sample(vecs, n_vec, r)
+    scripts = [scen.streamdata_script(r, i, fate_vec=v) for i, v in enumerate(chosen)]
+    scripts += [scen.streamdata_script(r, i) for i in range(n_rand)]
+    mcs = [("StreamData.tla", "MC_StreamData.cfg" if quick else "MC_StreamData4.cfg")]
+    return generic("C01", tier, seed, mcs, scripts,
+                   [("streamdata", "StreamDataTrace.tla", "StreamDataTrace.cfg")],
+                   ["payload is the arithmetic progression (key+offset) mod 251 per stream; content errors that are a multiple of 251 bytes apart are caught by the offset checks only",
+                    "toy crypto provider; network faults are those of the simulator (drop, duplicate, delay/reorder, GSO split, link MTU, CE marks)"],
+                   extra_cov={"fate_vectors_enumerated_by_tlc": len(vecs), "generator_states": gst})
+
+
 REGISTRY = {
+    "C01": check_C01,
     "C08": check_C08,
 }
 
@@ -120,4 +143,9 @@ def replay_C08(scripts):
                    shards=1)
 
 
-REPLAY = {"C08": replay_C08}
+def replay_C01(scripts):
+    return generic("C01", "quick", 0, [], scripts, [("streamdata", "StreamDataTrace.tla", "StreamDataTrace.cfg")], [],
+                   shards=1)
+
+
+REPLAY = {"C08": replay_C08, "C01": replay_C01}
